@@ -9,6 +9,13 @@
   (`plan`): 0 = success, 1 = fails with ENOENT (treated as success by the code), anything else =
   fails with another errno (the code answers '!' and abandons the request).
 
+  `cleanuppid()` — the program's second source of `unlink` calls — is `cleanuppid`: what `now()`,
+  `opendir("pid")`, `readdir` and `stat` present is an input (`Scan`, one per call); the events are
+  `cleanup` (the `opendir`), one `unlink "pid/<name>"` per entry that is not `.`/`..`, whose `stat`
+  succeeds and whose atime is at least OSSIFIED seconds old (`time < st_atime + OSSIFIED` ⇒ skip),
+  and `cleanupEnd` (the `closedir`; absent when `opendir` failed).  The result of these unlinks is
+  ignored by the code.
+
   Core Lean only.
 -/
 import Nq.Basic
@@ -48,11 +55,49 @@ def fmtqfn (dirslash : Bytes) (id : Nat) (split : Bool) : Bytes :=
 @[reducible] def stOK : Byte := 43    -- '+'  done
 @[reducible] def stERR : Byte := 33   -- '!'  unlink failed
 
+@[reducible] def PIDDIR : Bytes := [112, 105, 100, 47]   -- "pid/"
+@[reducible] def DOT1 : Bytes := [46]                     -- "."
+@[reducible] def DOT2 : Bytes := [46, 46]                 -- ".."
+
+/-- `#define OSSIFIED 129600` of qmail-clean.c (translator: `Gen/Consts`) -/
+def OSSIFIED : Nat := Nq.Gen.OSSIFIED_clean
+
 inductive Ev
   | unlink (path : Bytes)
   | status (b : Byte)
-  | cleanup                 -- `cleanuppid()`: opendir("pid") (the directory is empty / absent in the model)
+  | cleanup                 -- `cleanuppid()`: opendir("pid")
+  | cleanupEnd              -- `cleanuppid()`: closedir (only if the opendir succeeded)
   deriving DecidableEq, Repr
+
+/-- one entry of `pid/` as `readdir` + `stat("pid/<name>")` present it: its name and, if `stat`
+succeeds, its access time -/
+structure PidEnt where
+  name : Bytes
+  atime : Option Nat
+  deriving DecidableEq, Repr
+
+/-- what one call of `cleanuppid()` sees: `now()` and the directory (`none`: `opendir` fails) -/
+structure Scan where
+  now : Nat := 0
+  ents : Option (List PidEnt) := none
+  deriving DecidableEq, Repr
+
+/-- the `while ((d = readdir(dir)))` loop of `cleanuppid()`: the paths it unlinks, in order -/
+def pidUnlinks (now : Nat) : List PidEnt → List Bytes
+  | [] => []
+  | e :: r =>
+      if e.name = DOT1 ∨ e.name = DOT2 then pidUnlinks now r
+      else match e.atime with
+        | none => pidUnlinks now r                       -- `if (stat(line.s,&st) == -1) continue;`
+        | some t =>
+            if now < t + OSSIFIED then pidUnlinks now r  -- `if (time < st.st_atime + OSSIFIED) continue;`
+            else (PIDDIR ++ e.name) :: pidUnlinks now r
+
+/-- `cleanuppid()` -/
+def cleanuppid (sc : Scan) : List Ev :=
+  .cleanup :: (match sc.ents with
+    | none => []
+    | some es => (pidUnlinks sc.now es).map .unlink ++ [.cleanupEnd])
 
 /-- the `U(prefix,flag)` macro applied to a list of file names: unlink each in turn; an `unlink`
 failing with anything but ENOENT answers '!' and skips the rest (`continue`); after the last one
@@ -93,17 +138,21 @@ def splitReqs : Bytes → Bytes → List Bytes
   | _, [] => []
   | cur, c :: rest => if c = 0 then (cur ++ [0]) :: splitReqs [] rest else splitReqs (cur ++ [c]) rest
 
-/-- `if (cleanuploop) --cleanuploop; else { cleanuppid(); cleanuploop = 30; }` -/
-def housekeeping (cl : Nat) : List Ev := if cl = 0 then [.cleanup] else []
+/-- `if (cleanuploop) --cleanuploop; else { cleanuppid(); cleanuploop = 30; }`; `scans` = what the
+calls of `cleanuppid()` still to come will see (none left: `opendir` fails) -/
+def housekeeping (cl : Nat) (scans : List Scan) : List Ev := if cl = 0 then cleanuppid (scans.headD {}) else []
+def nextScans (cl : Nat) (scans : List Scan) : List Scan := if cl = 0 then scans.tail else scans
 def nextLoop (cl : Nat) : Nat := if cl = 0 then 30 else cl - 1
 
 /-- the whole program on the list of complete requests; the last iteration is the `getln` that
 meets end of input -/
-def runReqs : Nat → List Bytes → List Nat → List Ev
-  | cl, [], _ => housekeeping cl
-  | cl, l :: ls, plan => housekeeping cl ++ (handleReq l plan).1 ++ runReqs (nextLoop cl) ls (handleReq l plan).2
+def runReqs : Nat → List Bytes → List Nat → List Scan → List Ev
+  | cl, [], _, scans => housekeeping cl scans
+  | cl, l :: ls, plan, scans =>
+      housekeeping cl scans ++ (handleReq l plan).1 ++ runReqs (nextLoop cl) ls (handleReq l plan).2 (nextScans cl scans)
 
-def run (input : Bytes) (plan : List Nat) : List Ev := runReqs 0 (splitReqs [] input) plan
+def run (input : Bytes) (plan : List Nat) (scans : List Scan := []) : List Ev :=
+  runReqs 0 (splitReqs [] input) plan scans
 
 def statuses : List Ev → Bytes
   | [] => []
